@@ -20,10 +20,10 @@ type (
 )
 
 const (
-	VerifHeadSize     = headSize
-	VerifMacSize      = macSize
-	VerifRespTimeout  = respTimeout
-	VerifBucketSize   = bucketSize
+	VerifHeadSize    = headSize
+	VerifMacSize     = macSize
+	VerifRespTimeout = respTimeout
+	VerifBucketSize  = bucketSize
 )
 
 func VerifMaxNeighborsValue() int { return maxNeighbors }
@@ -58,11 +58,13 @@ func VerifNewUDP(c VerifConn, cfg Config) (*VerifUDP, error) {
 	return &VerifUDP{u: u, Tab: tab}, nil
 }
 
-func (v *VerifUDP) HandlePacket(from *net.UDPAddr, buf []byte) error { return v.u.handlePacket(from, buf) }
-func (v *VerifUDP) InitDone() <-chan struct{}                        { return v.Tab.initDone }
-func (v *VerifUDP) Close()                                           { v.Tab.Close() }
-func (v *VerifUDP) Netcompat() bool                                  { return v.u.netcompat() }
-func (v *VerifUDP) TableLen() int                                    { return v.Tab.len() }
+func (v *VerifUDP) HandlePacket(from *net.UDPAddr, buf []byte) error {
+	return v.u.handlePacket(from, buf)
+}
+func (v *VerifUDP) InitDone() <-chan struct{} { return v.Tab.initDone }
+func (v *VerifUDP) Close()                    { v.Tab.Close() }
+func (v *VerifUDP) Netcompat() bool           { return v.u.netcompat() }
+func (v *VerifUDP) TableLen() int             { return v.Tab.len() }
 
 // SetBond records a completed ping/pong exchange with id at time t (what a real bond does last).
 func (v *VerifUDP) SetBond(id NodeID, t time.Time) error { return v.Tab.db.updateBondTime(id, t) }
